@@ -27,8 +27,8 @@ EXPECTED = {
     ("stored-invalid", "foreign-id"): "ValidateOnStore",
     ("valid-not-stored", "blocked-by-foreign-id"): "ValidateOnStore",
     ("transient-failure-dropped", "fault"): "TransientRetried",
-    ("transient-failure-dropped", "nokey"): "UnknownKeyRetried",
-    ("transient-failure-dropped", "ctxdown"): "ContextErrorsSeen",
+    # UnknownKeyRetried and ContextErrorsSeen are TRUE since the repairs f131123 / 7b63384 in /repo: their signatures
+    # ("transient-failure-dropped" nokey / ctxdown) are ordinary violations again
     ("id-two-contents", "overlap"): "StoreAtomic",
 }
 
